@@ -106,6 +106,16 @@ def run(tier):
         os.remove(raw)
         log("  %s: %d behaviours with ledger (%d events), %d bad, ledger %s (%.1fs)" % (
             name, got, len(evs), nbad, "clean" if not tr.violation else why, time.time() - t0))
+    # regions of length 0 (never mapped), 1, and around page boundaries at the platform and the ipc level: created, cloned,
+    # sent, received, dropped - ledger and /proc empty after every case
+    import prop_c18
+    rs = prop_c18.region_stage("C11", wd)
+    violations += rs["violations"]
+    distinct |= rs["distinct"]
+    evaluations += rs["evaluations"]
+    validated += rs["validated"]
+    states += rs["states"]
+    transitions += rs["transitions"]
     if tier != "quick":
         # the repository's own 82 tests as trace sources: runs the authors thought were fine, every step through the ledger
         import subprocess
